@@ -1142,7 +1142,7 @@ class Messenger(Connection):
 
         self.send_message(messages.MessageHead() /
                           messages.TransferRefuse(transfer_id=transfer_id,
-                                                  flags=reason))
+                                                  reason=reason))
 
 
 class BundleItem(object):
